@@ -62,8 +62,8 @@ CHECKS = {
    technique="symbolic execution of go/ssa (real archive/zip, flate, zipfs) with DFS over tree shapes, native replay",
    design="5/C07"),
  "C08": dict(
-   text="Bounded exhaustive exploration of every exclusion-aware operation (walk, ls, recursive ls, tree listing, sub-directories, copy, clean, remove; real regexp package interpreted) over EVERY tree of depth <= 2 on names {a,b} (thorough {a,b,ab}) and 0..1 (2) patterns from {a,b,ab,a.*,.*b,[ab],a.b,b.a} (the last two could only match across a path separator), against the statement's two-sided reference (full match of a component => protected with everything beneath; no component containing a match => must be processed); invalid patterns rejected with the 'invalid' kind before anything is touched; pattern pairs with inline flags or unbalanced groups behave as the two patterns separately (no leakage between patterns). Known-finding regions: protection lost at depth >= 2 in clean/remove; invalid pattern ignored on an empty directory; copy / pattern-aware removal matching a pattern across a path separator.",
-   note="Zip with exclusions and patterns beyond the fixed set are outside; in-memory backend only.",
+   text="Bounded exhaustive exploration of every exclusion-aware operation (walk, ls, recursive ls, tree listing, sub-directories, zip -- archive read back with the real reader --, copy, clean, remove; real regexp package interpreted) over EVERY tree of depth <= 2 on names {a,b} (thorough {a,b,ab}) and 0..1 (2) patterns from {a,b,ab,a.*,.*b,[ab],a.b,b.a} (the last two could only match across a path separator), against the statement's two-sided reference (full match of a component => protected with everything beneath; no component containing a match => must be processed); invalid patterns rejected with the 'invalid' kind before anything is touched; pattern pairs with inline flags or unbalanced groups behave as the two patterns separately (no leakage between patterns). Known-finding regions: protection lost at depth >= 2 in clean/remove; invalid pattern ignored on an empty directory; copy / pattern-aware removal matching a pattern across a path separator.",
+   note="Patterns beyond the fixed set are outside; in-memory backend only.",
    technique="symbolic execution of go/ssa with DFS over trees x patterns x operations (bounded model checking), native replay",
    design="5/C08"),
  "C09": dict(
